@@ -121,6 +121,15 @@ def states(rep, label, **kw):
     return items
 
 
+def dup_routes_stage(rep, quick):
+    """C03: the 'loading a file' and from_dict routes"""
+    plain = states(rep, "dup-routes:plain<=3", max_nodes=3, d=2)
+    run_items(rep, "C03", plain, "str", quick, "dup-routes")
+    typed = states(rep, "dup-routes:typed<=2", max_nodes=2 if quick else 3, d=2, typed=True, kinds=(0, 2))
+    run_items(rep, "C03", typed, "str+typed", quick, "dup-routes-typed")
+    run_items(rep, "C03", plain if not quick else plain[::2], "dataclass", quick, "dup-routes-objects")
+
+
 def run(prop: str, tier: str) -> int:
     seed = env_seed()
     rep = Report(prop, tier, seed)
